@@ -502,6 +502,9 @@ class MarkdownNormalizer(Renderer):
         self._in_heading = True
         self._current_inline_text = ""
         children_content = self.render_children(element)
+        # A multi-line (setext) heading becomes a one-line ATX heading: a soft line break
+        # inside it would end the heading and start a paragraph.
+        children_content = re.sub(r"(?<!\\)\n", " ", children_content)
         self._in_heading = False
         self._current_inline_text = ""
         # If heading ends with hard break, don't add extra newline
